@@ -28,13 +28,13 @@ def sh(cmd, cwd=None, env=None, timeout=3600):
 def confirm(prop, i, name=None):
     wt, out = f"/tmp/wt/{prop}", f"/tmp/wt_out/{prop}"
     patch, demo, meta = f"{out}/patch_{i}.diff", f"{out}/demo_{i}.py", f"{out}/meta_{i}.json"
-    env = {"PYTHONPATH": f"{wt}/src", "PEST_SRC": f"{wt}/src"}
+    env = {"PYTHONPATH": f"{wt}/src", "PEST_SRC": f"{wt}/src", "PEST_ROOT": wt}
     sh("git checkout -- . && git clean -fdq", cwd=wt)
     rc0, o0 = sh(f"/venv/bin/python {demo}", cwd=wt, env=env)
     rca, oa = sh(f"git apply {patch}", cwd=wt)
     assert rca == 0, oa
     rct, ot = sh("/venv/bin/python -m pytest -q -p no:cacheprovider --continue-on-collection-errors --timeout=900 2>&1 | tail -3", cwd=wt, env=env)
-    sh("git checkout -- examples", cwd=wt)
+    sh("git checkout -- examples/calculator/parser.py examples/calculator/grammar_encoded_prec_parser.py examples/jsonpath/parser.py", cwd=wt)
     rc1, o1 = sh(f"/venv/bin/python {demo}", cwd=wt, env=env)
     files = sh("git diff --name-only", cwd=wt)[1].split()
     sh("git checkout -- . && git clean -fdq", cwd=wt)
